@@ -1,3 +1,577 @@
 // harnesses mounted as child module of agdb/src/collections/multi_map.rs
 #[allow(unused_imports)]
 use super::*;
+
+// =============================================================================
+// C19 — "every query terminates after any history" for the hash structures.
+//
+// Shape of every harness below: the table (states, keys, values of an
+// `ArrMap<C>`, the array-backed implementation of the code base's own `MapData`
+// trait) is ARBITRARY, constrained only by the invariant INV that every real
+// history maintains, then ONE real operation with a symbolic key runs.
+//
+//   INV1  len == number of Valid slots
+//   INV2  len <= capacity * 15 / 16          (`max_len`: insert grows first
+//                                             when len >= max_len, so len may
+//                                             reach but never exceed it)
+//
+// INV = INV1 && INV2 holds for the empty table; every harness re-asserts INV on
+// the post-state, so INV is inductive and the pre-states are a superset of the
+// reachable ones.
+//
+//   INV3  a Valid slot p holding key k is at cyclic distance
+//         (p - k % capacity) <= max_len - 1
+// INV3 is an invariant only of tables that are never written through
+// `insert_or_replace` (the index multimap: insert / remove_value / values):
+// `insert` puts a key on the first non-Valid slot after its home slot, so all
+// slots in between were Valid (at most len <= max_len - 1 of them). The
+// harnesses for insert / remove_key / remove_value show "INV3 before => INV3
+// after". `insert_or_replace` does NOT maintain it (it always inserts at the
+// first EMPTY slot: an earlier tombstone remembered in `free_pos` is overwritten
+// when the Empty slot ends the loop), so INV3 is assumed only by the one
+// harness that needs it (whole iteration of iter_key, which the database only
+// runs on the index multimap). Deliberately NOT assumed: "some slot is Empty" — it is not an
+// invariant: at the minimum capacity 64 `rehash(capacity)` and
+// `rehash(capacity / 2)` are no-ops (`max(capacity, 64) == 64`), so tombstones
+// are never cleared (see the history at the end of this file).
+//
+// Termination oracle: Kani's unwinding assertion with bound C + 1 — a probe
+// sequence that has not ended after visiting each of the C slots once never
+// ends (the probe state is only `pos`, the table does not change while probing
+// except Valid -> Deleted of matching slots in `remove_key`).
+//
+// Capacities. Real tables have capacity 0 or 64 * 2^n (`rehash` clamps to 64;
+// `reserve` is not used by the database). `*_cap64` harnesses (tier thorough)
+// are the real minimum table. `*_cap8` harnesses (tier quick) run the SAME probe
+// loops (they only use `hash % capacity()` and `next_pos`) on an 8-slot table
+// with stronger functional oracles. What capacity 8 does NOT show: anything
+// behind a `rehash` call — at capacity 8 `rehash(8)`/`rehash(4)` would GROW the
+// table to 64 (unlike the no-op at 64); `ArrMap<8>::resize` cuts those paths
+// (`kani::assume`), i.e. in the cap8 harnesses the statements after a `rehash`
+// call are not checked (the probe loops before it are).
+// =============================================================================
+
+use crate::storage::verif_h::fresh_arr_storage;
+use crate::verif_support::ArrMap;
+use crate::verif_support::ArrStorage;
+use crate::verif_support::is_ok;
+use crate::verif_support::ok;
+
+type C19Map<const C: usize> = MultiMapImpl<u64, u64, ArrStorage, ArrMap<C>>;
+
+// `max_len` transcribed from the code (load factor 15/16).
+fn c19_max_len(cap: u64) -> u64 {
+    cap * 15 / 16
+}
+
+fn c19_count_valid<const C: usize>(d: &ArrMap<C>) -> u64 {
+    let mut n = 0u64;
+    let mut i = 0;
+    while i < C {
+        if (i as u64) < d.cap && d.states[i] == 1 {
+            n += 1;
+        }
+        i += 1;
+    }
+    n
+}
+
+// (encoding ok: states in 0..=2 and slots beyond cap Empty, INV1, INV2, INV3)
+fn c19_inv_parts<const C: usize>(d: &ArrMap<C>) -> (bool, bool, bool, bool) {
+    if d.cap == 0 {
+        return (true, d.len == 0, true, true);
+    }
+    let max_len = c19_max_len(d.cap);
+    let mut valid = 0u64;
+    let mut enc = true;
+    let mut dist_ok = true;
+    let mut i = 0;
+    while i < C {
+        if d.states[i] > 2 {
+            enc = false;
+        }
+        if (i as u64) >= d.cap {
+            if d.states[i] != 0 {
+                enc = false;
+            }
+        } else if d.states[i] == 1 {
+            valid += 1;
+            // capacities are powers of two in every harness: x % cap == x & (cap - 1)
+            // (a mask instead of a 64-bit divider circuit per slot)
+            let home = d.keys[i] & (d.cap - 1);
+            let dist = (i as u64 + d.cap - home) & (d.cap - 1);
+            if dist + 1 > max_len {
+                dist_ok = false;
+            }
+        }
+        i += 1;
+    }
+    (enc, valid == d.len, d.len <= max_len, dist_ok)
+}
+
+fn c19_inv<const C: usize>(d: &ArrMap<C>) -> bool {
+    let (a, b, c, _) = c19_inv_parts(d);
+    a && b && c
+}
+
+fn c19_inv3<const C: usize>(d: &ArrMap<C>) -> bool {
+    c19_inv_parts(d).3
+}
+
+// `inv3_before`: Some(x) = the operation is one that must preserve INV3
+fn c19_assert_inv<const C: usize>(d: &ArrMap<C>, inv3_before: Option<bool>) {
+    let (enc, inv1, inv2, inv3) = c19_inv_parts(d);
+    assert!(enc, "post-state: slot state outside Empty/Valid/Deleted");
+    assert!(inv1, "post-state: len != number of Valid slots (INV1)");
+    assert!(inv2, "post-state: len > max_len (INV2)");
+    if let Some(before) = inv3_before {
+        assert!(!before || inv3, "post-state: a key sits max_len or more slots past its home slot (INV3 not preserved)");
+    }
+}
+
+fn c19_any_table<const C: usize>() -> C19Map<C> {
+    let data = ArrMap::<C> {
+        states: kani::any(),
+        keys: kani::any(),
+        values: kani::any(),
+        len: kani::any(),
+        cap: C as u64,
+    };
+    assert!(C.is_power_of_two());
+    kani::assume(c19_inv(&data));
+    MultiMapImpl {
+        data,
+        phantom_marker: PhantomData,
+    }
+}
+
+// Number of Valid slots holding `key` that a probe from the key's home slot
+// reaches (walk until the first Empty slot or one full cycle) — the reference
+// for what lookups may see. `value`: Some(v) counts only pairs (key, v).
+fn c19_ref_count<const C: usize>(d: &ArrMap<C>, key: u64, value: Option<u64>) -> u64 {
+    let cap = d.cap as usize;
+    let home = (key & (d.cap - 1)) as usize; // cap is a power of two
+    let mut n = 0u64;
+    let mut stopped = false;
+    let mut j = 0;
+    while j < C {
+        if j < cap && !stopped {
+            let p = if home + j >= cap { home + j - cap } else { home + j };
+            if d.states[p] == 0 {
+                stopped = true;
+            } else if d.states[p] == 1 && d.keys[p] == key {
+                match value {
+                    Some(v) => {
+                        if d.values[p] == v {
+                            n += 1;
+                        }
+                    }
+                    None => n += 1,
+                }
+            }
+        }
+        j += 1;
+    }
+    n
+}
+
+fn c19_has_empty<const C: usize>(d: &ArrMap<C>) -> bool {
+    let mut e = false;
+    let mut i = 0;
+    while i < C {
+        if d.states[i] == 0 {
+            e = true;
+        }
+        i += 1;
+    }
+    e
+}
+
+// number of slots whose (state) differs between two tables + last such index
+fn c19_diff<const C: usize>(a: &[u8; C], b: &[u8; C]) -> (usize, usize) {
+    let mut n = 0;
+    let mut at = 0;
+    let mut i = 0;
+    while i < C {
+        if a[i] != b[i] {
+            n += 1;
+            at = i;
+        }
+        i += 1;
+    }
+    (n, at)
+}
+
+// ---------------------------------------------------------------------------
+// insert (free_index + do_insert), no growth: len < max_len
+// ---------------------------------------------------------------------------
+fn c19_insert_body<const C: usize>(functional: bool) {
+    let mut s = fresh_arr_storage();
+    let mut m = c19_any_table::<C>();
+    kani::assume(m.data.len < c19_max_len(C as u64)); // growth: see c19_insert_grows_*
+    let before = m.data.states;
+    let len0 = m.data.len;
+    let k: u64 = kani::any();
+    let v: u64 = kani::any();
+    let had = if functional { c19_ref_count(&m.data, k, Some(v)) } else { 0 };
+    let inv3 = c19_inv3(&m.data);
+
+    let r = m.insert(&mut s, &k, &v);
+
+    assert!(is_ok(r), "insert returned Err");
+    assert!(m.data.cap == C as u64, "capacity changed without reaching max_len");
+    assert!(m.data.len == len0 + 1, "insert did not add exactly one element");
+    c19_assert_inv(&m.data, Some(inv3));
+    let (n, at) = c19_diff(&before, &m.data.states);
+    assert!(n == 1, "insert must turn exactly one slot Valid");
+    assert!(before[at] != 1 && m.data.states[at] == 1, "insert overwrote a Valid slot");
+    assert!(m.data.keys[at] == k && m.data.values[at] == v, "inserted slot holds wrong pair");
+    if functional {
+        assert!(
+            c19_ref_count(&m.data, k, Some(v)) >= had + 1,
+            "inserted pair is not reachable by a probe from its home slot"
+        );
+        // (that lookups yield exactly the pairs counted by c19_ref_count is
+        // c19_iter_key_terminates_cap8; calling contains_value here costs 60 s)
+    }
+    kani::cover!(before[at] == 2, "a tombstone was reused");
+    kani::cover!(before[at] == 0 && at as u64 != k & (C as u64 - 1), "collision: probed past the home slot to an Empty slot");
+    kani::cover!((at as u64) < k & (C as u64 - 1), "probe wrapped around the end of the table");
+    kani::cover!(!c19_has_empty(&m.data), "table without any Empty slot explored");
+    kani::cover!(true, "end of harness reachable");
+    std::mem::forget(m);
+    std::mem::forget(s);
+}
+
+//@ id=C19 tier=quick timeout=600 bounds="capacity 8 (probe-loop logic only; real tables have capacity >= 64; paths behind rehash are cut); arbitrary table satisfying INV (len == #Valid, len < max_len); one insert(k,v), k,v any u64" desc="MultiMapImpl::insert terminates within capacity probe steps from any table, adds exactly one reachable pair to a non-Valid slot and preserves the table invariant" kernel="MultiMapImpl::insert,MultiMapImpl::free_index,MultiMapImpl::do_insert" args="--no-assertion-reach-checks"
+#[kani::proof]
+#[kani::stub(std::fmt::format, crate::verif_support::fmt_stub)]
+#[kani::stub(crate::DbError::new, crate::verif_support::dberror_new_stub)]
+#[kani::unwind(9)]
+fn c19_insert_terminates_cap8() {
+    c19_insert_body::<8>(true);
+}
+
+//@ id=C19 tier=thorough timeout=2400 bounds="capacity 64 (the real minimum); arbitrary table satisfying INV, len < max_len = 60 (growth at len == 60 not in this harness); one insert(k,v), k,v any u64" desc="MultiMapImpl::insert terminates within 64 probe steps from any capacity-64 table incl. tables with no Empty slot, adds exactly one pair, preserves the invariant" kernel="MultiMapImpl::insert,MultiMapImpl::free_index,MultiMapImpl::do_insert" args="--no-assertion-reach-checks"
+#[kani::proof]
+#[kani::stub(std::fmt::format, crate::verif_support::fmt_stub)]
+#[kani::stub(crate::DbError::new, crate::verif_support::dberror_new_stub)]
+#[kani::unwind(65)]
+fn c19_insert_terminates_cap64() {
+    c19_insert_body::<64>(false);
+}
+
+// ---------------------------------------------------------------------------
+// insert_or_replace (what MapImpl::insert = alias insertion uses)
+// ---------------------------------------------------------------------------
+fn c19_insert_or_replace_body<const C: usize>(functional: bool) {
+    let mut s = fresh_arr_storage();
+    let mut m = c19_any_table::<C>();
+    kani::assume(m.data.len < c19_max_len(C as u64));
+    let before = m.data.states;
+    let len0 = m.data.len;
+    let k: u64 = kani::any();
+    let v: u64 = kani::any();
+    let had = if functional { c19_ref_count(&m.data, k, None) } else { 0 };
+    let no_empty = !c19_has_empty(&m.data);
+
+    let r = m.insert_or_replace(&mut s, &k, |_| true, &v);
+
+    let old = ok(r);
+    c19_assert_inv(&m.data, None);
+    let (n, at) = c19_diff(&before, &m.data.states);
+    match old {
+        Some(_) => {
+            assert!(n == 0 && m.data.len == len0, "replace must not change occupancy");
+        }
+        None => {
+            assert!(n == 1 && m.data.len == len0 + 1, "insert must add exactly one element");
+            assert!(before[at] != 1 && m.data.states[at] == 1, "insert overwrote a Valid slot");
+            assert!(m.data.keys[at] == k && m.data.values[at] == v, "inserted slot holds wrong pair");
+        }
+    }
+    if functional {
+        assert!(old.is_some() == (had > 0), "replaced iff the key was reachable before");
+        let now = ok(m.value(&s, &k));
+        assert!(now == Some(v), "value() does not return the inserted/replaced value");
+    }
+    kani::cover!(old.is_some(), "existing key replaced");
+    kani::cover!(old.is_none() && at as u64 != (k & (C as u64 - 1)), "new key inserted past its home slot");
+    kani::cover!(no_empty, "table without any Empty slot explored");
+    kani::cover!(true, "end of harness reachable");
+    std::mem::forget(m);
+    std::mem::forget(s);
+}
+
+//@ id=C19 tier=quick timeout=600 bounds="capacity 8 (probe-loop logic only; real tables have capacity >= 64); arbitrary table satisfying INV, len < max_len; one insert_or_replace(k, always, v)" desc="MultiMapImpl::insert_or_replace (MapImpl::insert, i.e. alias insertion) terminates within capacity probe steps from any table, incl. tables whose non-Valid slots are all tombstones; replaces or inserts exactly one pair" kernel="MultiMapImpl::insert_or_replace,MultiMapImpl::value" args="--no-assertion-reach-checks"
+#[kani::proof]
+#[kani::stub(std::fmt::format, crate::verif_support::fmt_stub)]
+#[kani::stub(crate::DbError::new, crate::verif_support::dberror_new_stub)]
+#[kani::unwind(9)]
+fn c19_insert_or_replace_terminates_cap8() {
+    c19_insert_or_replace_body::<8>(true);
+}
+
+//@ id=C19 tier=thorough timeout=3600 bounds="capacity 64 (the real minimum); arbitrary table satisfying INV, len < max_len = 60; one insert_or_replace(k, always, v)" desc="MultiMapImpl::insert_or_replace terminates within 64 probe steps from any capacity-64 table incl. tables with no Empty slot (reachable: tombstones are never cleared at capacity 64)" kernel="MultiMapImpl::insert_or_replace" args="--no-assertion-reach-checks"
+#[kani::proof]
+#[kani::stub(std::fmt::format, crate::verif_support::fmt_stub)]
+#[kani::stub(crate::DbError::new, crate::verif_support::dberror_new_stub)]
+#[kani::unwind(65)]
+fn c19_insert_or_replace_terminates_cap64() {
+    c19_insert_or_replace_body::<64>(false);
+}
+
+// ---------------------------------------------------------------------------
+// remove_key
+// ---------------------------------------------------------------------------
+// returns: "full cycle over a table without Empty slot, nothing removed"
+fn c19_remove_key_body<const C: usize>(functional: bool, unique_key: bool) -> bool {
+    let mut s = fresh_arr_storage();
+    let mut m = c19_any_table::<C>();
+    let before = m.data.states;
+    let keys0 = m.data.keys;
+    let len0 = m.data.len;
+    let k: u64 = kani::any();
+    if unique_key {
+        // What every caller in the database guarantees: `remove_key` is only
+        // reached through MapImpl::remove (aliases, both directions), whose
+        // tables hold a key at most once (shown by the C10 harnesses: "a key is
+        // stored twice"). The index multimap only uses remove_value.
+        let p: usize = kani::any();
+        kani::assume(p < C);
+        let mut i = 0;
+        while i < C {
+            if i != p {
+                kani::assume(!(m.data.states[i] == 1 && m.data.keys[i] == k));
+            }
+            i += 1;
+        }
+    }
+    let had = c19_ref_count(&m.data, k, None);
+    // Lemma handed to the solver (a consequence of INV1, so no state is
+    // excluded): the Valid slots holding `k` on the probe path are at most
+    // len. Without it the proof that `len -= 1` in remove_key cannot underflow
+    // is a 64-slot counting argument in two different slot orders, which the
+    // SAT solver does not finish (> 25 min).
+    kani::assume(had <= len0);
+    let no_empty = !c19_has_empty(&m.data);
+    let inv3 = if functional { c19_inv3(&m.data) } else { true };
+
+    let r = m.remove_key(&mut s, &k);
+
+    assert!(is_ok(r), "remove_key returned Err");
+    assert!(m.data.cap == C as u64, "capacity changed");
+    if functional {
+        // (at capacity 64 "len == number of Valid slots" after up to 60
+        // removals at symbolic positions is a counting equivalence the SAT
+        // solver does not finish in 25 min; the invariant is shown at capacity 8)
+        c19_assert_inv(&m.data, Some(inv3));
+    }
+    assert!(m.data.len <= len0, "remove_key increased len");
+    // frame: only Valid slots holding `k` may change, and only to Deleted
+    let mut i = 0;
+    while i < C {
+        if before[i] != m.data.states[i] {
+            assert!(before[i] == 1 && keys0[i] == k && m.data.states[i] == 2, "remove_key touched a slot that does not hold the key");
+        }
+        i += 1;
+    }
+    assert!(len0 - m.data.len == had, "remove_key must remove every reachable pair of the key");
+    if functional {
+        let still = ok(m.contains(&s, &k));
+        assert!(!still, "key still found after remove_key");
+        kani::cover!(had == 2, "two values of the key removed");
+        kani::cover!(had == 0 && len0 > 0, "missing key");
+    }
+    let full_cycle = no_empty && len0 == m.data.len;
+    let _ = full_cycle; // (reachable only where rehash(capacity) is a no-op, i.e. at capacity 64)
+    kani::cover!(true, "end of harness reachable");
+    std::mem::forget(m);
+    std::mem::forget(s);
+    full_cycle
+}
+
+//@ id=C19 tier=quick timeout=900 bounds="capacity 8 (probe-loop logic only; paths behind rehash — full cycle without removal, len <= min_len after removal — are cut after the loop); arbitrary table satisfying INV; one remove_key(k)" desc="MultiMapImpl::remove_key terminates within capacity probe steps from any table, removes exactly the reachable pairs of the key, touches no other slot, key no longer found" kernel="MultiMapImpl::remove_key,MultiMapImpl::drop_value,MultiMapImpl::contains" args="--no-assertion-reach-checks"
+#[kani::proof]
+#[kani::stub(std::fmt::format, crate::verif_support::fmt_stub)]
+#[kani::stub(crate::DbError::new, crate::verif_support::dberror_new_stub)]
+#[kani::unwind(9)]
+fn c19_remove_key_terminates_cap8() {
+    c19_remove_key_body::<8>(true, false);
+}
+
+// No capacity-64 harness for remove_key: neither the general form nor the ones
+// restricted to unique keys / to an absent key finished (symbolic execution 90 s,
+// then the SAT solver ran > 20 min without an answer: up to 64 conditional
+// three-array writes at symbolic positions inside the probe loop). The probe loop
+// of remove_key is covered at capacity 8 above; the capacity-64 no-op of
+// `rehash(capacity)` after a full cycle is covered by c19_remove_value_terminates_cap64
+// (same call).
+
+// ---------------------------------------------------------------------------
+// remove_value
+// ---------------------------------------------------------------------------
+// returns: ("full cycle over a table without Empty slot, nothing removed",
+//           "the pair was there twice")
+fn c19_remove_value_body<const C: usize>(functional: bool) -> (bool, bool) {
+    let mut s = fresh_arr_storage();
+    let mut m = c19_any_table::<C>();
+    let before = m.data.states;
+    let keys0 = m.data.keys;
+    let values0 = m.data.values;
+    let len0 = m.data.len;
+    let k: u64 = kani::any();
+    let v: u64 = kani::any();
+    let had = if functional { c19_ref_count(&m.data, k, Some(v)) } else { 0 };
+    let no_empty = !c19_has_empty(&m.data);
+    let inv3 = if functional { c19_inv3(&m.data) } else { true };
+
+    let r = m.remove_value(&mut s, &k, &v);
+
+    assert!(is_ok(r), "remove_value returned Err");
+    assert!(m.data.cap == C as u64, "capacity changed");
+    if functional {
+        c19_assert_inv(&m.data, Some(inv3));
+    }
+    let (n, at) = c19_diff(&before, &m.data.states);
+    assert!(n <= 1, "remove_value changed more than one slot");
+    if n == 1 {
+        assert!(before[at] == 1 && keys0[at] == k && values0[at] == v && m.data.states[at] == 2, "remove_value removed a different pair");
+        assert!(m.data.len == len0 - 1, "len not decremented");
+    } else {
+        assert!(m.data.len == len0, "len changed without a removal");
+    }
+    if functional {
+        assert!((n == 1) == (had > 0), "a reachable pair must be removed, an absent one must not");
+        assert!(c19_ref_count(&m.data, k, Some(v)) + n as u64 == had, "remaining reachable pairs");
+    }
+    kani::cover!(n == 1 && at as u64 != k & (C as u64 - 1), "removed pair was displaced from its home slot");
+    let full_cycle = no_empty && n == 0;
+    kani::cover!(true, "end of harness reachable");
+    std::mem::forget(m);
+    std::mem::forget(s);
+    (full_cycle, had == 2)
+}
+
+//@ id=C19 tier=quick timeout=900 bounds="capacity 8 (probe-loop logic only; paths behind rehash are cut after the loop); arbitrary table satisfying INV; one remove_value(k,v)" desc="MultiMapImpl::remove_value terminates within capacity probe steps from any table and removes exactly one reachable (k,v) pair iff there is one" kernel="MultiMapImpl::remove_value,MultiMapImpl::remove_index,MultiMapImpl::drop_value" args="--no-assertion-reach-checks"
+#[kani::proof]
+#[kani::stub(std::fmt::format, crate::verif_support::fmt_stub)]
+#[kani::stub(crate::DbError::new, crate::verif_support::dberror_new_stub)]
+#[kani::unwind(9)]
+fn c19_remove_value_terminates_cap8() {
+    let (_, duplicate) = c19_remove_value_body::<8>(true);
+    kani::cover!(duplicate, "duplicate pair: only the first is removed");
+}
+
+//@ id=C19 tier=thorough timeout=4800 bounds="capacity 64 (the real minimum); arbitrary table satisfying INV; one remove_value(k,v)" desc="MultiMapImpl::remove_value terminates within 64 probe steps from any capacity-64 table incl. tables with no Empty slot; at most the one matching slot changes" kernel="MultiMapImpl::remove_value,MultiMapImpl::remove_index,MultiMapImpl::rehash" args="--no-assertion-reach-checks"
+#[kani::proof]
+#[kani::stub(std::fmt::format, crate::verif_support::fmt_stub)]
+#[kani::stub(crate::DbError::new, crate::verif_support::dberror_new_stub)]
+#[kani::unwind(65)]
+fn c19_remove_value_terminates_cap64() {
+    let (full_cycle, _) = c19_remove_value_body::<64>(false);
+    // (at capacity 8 this path ends in rehash(8) = growth to 64 and is cut)
+    kani::cover!(full_cycle, "full cycle over a table without Empty slot, nothing removed, rehash(64) no-op");
+}
+
+// ---------------------------------------------------------------------------
+// lookups: iter_key / MultiMapIterator::next, value, contains, values_count
+// ---------------------------------------------------------------------------
+
+//@ id=C19 tier=quick timeout=900 bounds="capacity 8 (the iterator never rehashes: same code at every capacity); arbitrary table satisfying INV; whole iteration of iter_key(k) driven to None" desc="iter_key(k) terminates as a whole (each next() within capacity steps, at most max_len+1 next() calls) and yields exactly the reachable Valid pairs of k, skipping tombstones" kernel="MultiMapImpl::iter_key,MultiMapIterator::next,MultiMapImpl::values_count" args="--no-assertion-reach-checks"
+#[kani::proof]
+#[kani::stub(std::fmt::format, crate::verif_support::fmt_stub)]
+#[kani::stub(crate::DbError::new, crate::verif_support::dberror_new_stub)]
+#[kani::unwind(9)]
+fn c19_iter_key_terminates_cap8() {
+    let s = fresh_arr_storage();
+    let m = c19_any_table::<8>();
+    kani::assume(c19_inv3(&m.data)); // see header: holds for tables written by insert/remove_* only
+    let k: u64 = kani::any();
+    let expect = c19_ref_count(&m.data, k, None);
+    let mut n = 0u64;
+    let mut it = m.iter_key(&s, &k);
+    // at most max_len (7) pairs + the final None: the unwinding assertion of
+    // this loop is the "whole iteration ends" oracle
+    while let Some(r) = it.next() {
+        let (key, _v) = ok(r);
+        assert!(key == k, "iterator yielded a foreign key");
+        n += 1;
+    }
+    assert!(n == expect, "iterator must yield exactly the reachable pairs of the key");
+    kani::cover!(n == 3, "three values under one key");
+    kani::cover!(n == 0 && !c19_has_empty(&m.data), "full cycle over a table without Empty slot");
+    kani::cover!(true, "end of harness reachable");
+    std::mem::forget(m);
+    std::mem::forget(s);
+}
+
+fn c19_lookup_body<const C: usize>(functional: bool) {
+    let s = fresh_arr_storage();
+    let m = c19_any_table::<C>();
+    let k: u64 = kani::any();
+    let no_empty = !c19_has_empty(&m.data);
+    let r = ok(m.value(&s, &k));
+    if functional {
+        let expect = c19_ref_count(&m.data, k, None);
+        assert!(r.is_some() == (expect > 0), "value() finds the key iff a probe from its home slot reaches it");
+        let c = ok(m.contains(&s, &k));
+        assert!(c == r.is_some(), "contains() disagrees with value()");
+    }
+    // second next() on the same iterator (pos is now past the first hit)
+    let mut it = m.iter_key(&s, &k);
+    let a = it.next();
+    let b = it.next();
+    kani::cover!(a.is_some() && b.is_some(), "second value of the same key");
+    kani::cover!(r.is_none() && no_empty, "miss after a full cycle over a table without Empty slot");
+    kani::cover!(true, "end of harness reachable");
+    std::mem::forget(a);
+    std::mem::forget(b);
+    std::mem::forget(m);
+    std::mem::forget(s);
+}
+
+//@ id=C19 tier=quick timeout=600 bounds="capacity 8; arbitrary table satisfying INV; value(k), contains(k), two next() calls" desc="value/contains terminate within capacity probe steps from any table and find the key iff it is reachable from its home slot" kernel="MultiMapImpl::value,MultiMapImpl::contains,MultiMapIterator::next" args="--no-assertion-reach-checks"
+#[kani::proof]
+#[kani::stub(std::fmt::format, crate::verif_support::fmt_stub)]
+#[kani::stub(crate::DbError::new, crate::verif_support::dberror_new_stub)]
+#[kani::unwind(9)]
+fn c19_lookup_terminates_cap8() {
+    c19_lookup_body::<8>(true);
+}
+
+//@ id=C19 tier=thorough timeout=3000 bounds="capacity 64 (the real minimum); arbitrary table satisfying INV; value(k) and two next() calls on one iterator" desc="MultiMapIterator::next (value lookups) terminates within 64 probe steps from any capacity-64 table incl. tables with no Empty slot" kernel="MultiMapImpl::value,MultiMapImpl::iter_key,MultiMapIterator::next" args="--no-assertion-reach-checks"
+#[kani::proof]
+#[kani::stub(std::fmt::format, crate::verif_support::fmt_stub)]
+#[kani::stub(crate::DbError::new, crate::verif_support::dberror_new_stub)]
+#[kani::unwind(65)]
+fn c19_lookup_terminates_cap64() {
+    c19_lookup_body::<64>(false);
+}
+
+
+
+// =============================================================================
+// Public-API history for the expected failure of
+// c19_insert_or_replace_terminates_cap8 / _cap64 (pre-state: no Empty slot).
+//
+// `insert_or_replace` (= MapImpl::insert = both directions of the alias map)
+// always places a NEW key on the first EMPTY slot of its probe sequence (the
+// tombstone remembered in `free_pos` is overwritten when the Empty slot ends the
+// loop), `remove_key` turns the slot into a tombstone, and at capacity 64
+// nothing ever turns a tombstone back into Empty: `rehash(capacity)` (after a
+// full probe cycle) and `rehash(capacity / 2)` (len <= min_len) both compute
+// `max(.., 64) == 64 == capacity` and return. So every insertion of a new key
+// consumes one Empty slot for good; growth (the only thing that clears
+// tombstones) needs len >= 60 simultaneously live keys.
+//
+//   db = DbMemory::new(..); insert one node;
+//   for i in 0..64 { insert alias "alias{i}" for node 1; remove alias "alias{i}" }
+//   insert alias "final" for node 1          <-- never returns
+//
+// Reproduced natively (not Kani) against the unchanged /repo with
+// /tmp/dev_maps/repro/tests/c19_alias_tombstones.rs (agdb as a path dependency,
+// `cargo test --offline`): cycles 0..=63 complete, the 65th alias insertion makes
+// no progress for 10 s ("no progress for 10 s after completing cycle Some(63) of
+// 70"); the control test with 10 cycles passes.
+// =============================================================================
